@@ -656,6 +656,19 @@ retsub
 """)
 
 
+def deep_chain(n):
+    """n blocks in a row (each `bnz` to the next line starts a new block): the recursive DFS of the
+    analysis exceeds the default recursion limit, so `single` ends with RecursionError in a fresh
+    process — a consistently failing input that tells whether something left the limit changed."""
+    lines = ["#pragma version 6", "txn RekeyTo", "global ZeroAddress", "==", "assert"]
+    for i in range(n):
+        lines += ["int 1", "bnz c%d" % i, "err", "c%d:" % i]
+    lines += ["int 1", "return"]
+    return "\n".join(lines) + "\n"
+
+
+HAND["h018"] = ("deep chain of 1100 conditional blocks: RecursionError in the analysis at the default recursion limit (consistently failing input)", deep_chain(1100))
+
 # ---------------------------------------------------------------------------- generator
 CMP = ["==", "!=", "<", "<=", ">", ">="]
 
